@@ -446,9 +446,18 @@ func c17Work(ctx *core.Ctx, part string) {
 		lc := core.LocalCounts{}
 		opsA := spec.RandomOps(r, spec.GenOpts{Styles: true})
 		opsB := spec.RandomOps(r, spec.GenOpts{Styles: true, ScriptStyle: false})
-		if cs.Index%3 == 0 { // siblings from the same shipped constructor
+		switch cs.Index % 4 { // siblings from the same shipped constructor
+		case 0:
 			opsA = append([]spec.Op{{K: spec.KUGC}}, opsA[1:]...)
 			opsB = append([]spec.Op{{K: spec.KUGC}}, opsB[1:]...)
+		case 1:
+			opsA = append([]spec.Op{{K: spec.KStrict}}, opsA[1:]...)
+			opsB = append([]spec.Op{{K: spec.KStrict}}, opsB[1:]...)
+		case 2:
+			if cs.Index%8 == 2 { // A is the shipped policy as it comes
+				opsA = []spec.Op{{K: gen.Pick(r, []string{spec.KStrict, spec.KUGC})}}
+				opsB = append([]spec.Op{{K: opsA[0].K}}, opsB[1:]...)
+			}
 		}
 		// A built completely first
 		envA := NewEnv(opsA)
